@@ -96,6 +96,31 @@ def module_for(prop):
     return importlib.import_module('pydlsim.{0}.check'.format(prop.lower()))
 
 
+def indices(a):
+    """Run indices for this worker: a static slice, or - with --counter - blocks taken from
+    a counter file shared by all workers of the batch (flock), so that one expensive run
+    does not hold up the indices queued behind it.  Which worker executes a run has no
+    influence on the run (fork isolation, seed derived from the index)."""
+    if not a.counter:
+        for i in range(a.start, a.stop, a.step):
+            yield i
+        return
+    import fcntl
+    while True:
+        with open(a.counter, 'r+') as f:
+            fcntl.flock(f, fcntl.LOCK_EX)
+            nxt = int(f.read().strip() or 0)
+            f.seek(0)
+            f.truncate()
+            f.write(str(nxt + a.block))
+            f.flush()
+            fcntl.flock(f, fcntl.LOCK_UN)
+        if nxt >= a.stop:
+            return
+        for i in range(nxt, min(nxt + a.block, a.stop)):
+            yield i
+
+
 def main(argv=None):
     ap = argparse.ArgumentParser()
     ap.add_argument('--prop', required=True)
@@ -109,6 +134,8 @@ def main(argv=None):
     ap.add_argument('--scratch', default=None)
     ap.add_argument('--hard-timeout', type=float, default=0.0)
     ap.add_argument('--no-fork', action='store_true')
+    ap.add_argument('--counter', default=None)
+    ap.add_argument('--block', type=int, default=1)
     a = ap.parse_args(argv)
     faulthandler.enable()
     if a.hard_timeout > 0:
@@ -121,7 +148,7 @@ def main(argv=None):
     with open(a.out, 'w') as out:
         out.write(json.dumps({'hello': True, 'pid': os.getpid(), 'hashseed': os.environ.get('PYTHONHASHSEED')}) + '\n')
         out.flush()
-        for i in range(a.start, a.stop, a.step):
+        for i in indices(a):
             if a.deadline > 0 and _walltime.monotonic() - t0 > a.deadline:
                 out.write(json.dumps({'budget_exhausted_at': i}) + '\n')
                 break
